@@ -234,7 +234,7 @@ Proof.
       destruct r as [groups|x|w|]; cbn in H1; try discriminate; try reflexivity.
       pose proof (merge_rules_opanic groups []) as Hm.
       destruct (merge_rules groups []) as [rules|x|w|]; cbn in Hm; try discriminate; try reflexivity.
-      destruct (negb (forallb (fun kv => condition_ok sem (snd kv)) rules)); [reflexivity|]. apply Hfc.
+      cbv zeta. apply Hfc.
 Qed.
 
 Section WalkNPE.
